@@ -599,6 +599,23 @@ func pktGen(v *verifRun) {
 		}
 		v.do(pktApply, "walk", pktArgs{Nodes: nodes, At: a.At, P: p2})
 	}
+	// targeted: one rule whose only field is a regular expression built around the packet's own value of that field
+	for i := 0; i < v.n/6; i++ {
+		k := 2 + v.rng.Intn(3)
+		nodes, ids := v.pktScenario(k, false)
+		at := v.rng.Intn(k)
+		from, to := ids[v.rng.Intn(k)], ids[v.rng.Intn(k)]
+		fsvc, tsvc := pktSvcs[v.rng.Intn(3)], pktSvcs[v.rng.Intn(3)]
+		keys := []string{"fromnode", "tonode", "fromservice", "toservice"}
+		vals := []string{from, to, fsvc, tsvc}
+		fi := v.rng.Intn(4)
+		ast := v.reNear(vals[fi])
+		nodes[at].Rules = []pktRuleArg{{Action: []string{"reject", "drop"}[v.rng.Intn(2)],
+			Fields: []pktFieldArg{{K: keys[fi], V: verifHex([]byte("/" + reRender(ast, true) + "/")), AST: reJSON(ast)}}}}
+		p := pktPacketArg{From: verifHex([]byte(from)), To: verifHex([]byte(to)), FSvc: verifHex([]byte(fsvc)), TSvc: verifHex([]byte(tsvc)),
+			TTL: 5, Data: verifHex(v.bytesN(4))}
+		v.do(pktApply, "handle", pktArgs{Nodes: nodes, At: verifHex([]byte(ids[at])), P: p})
+	}
 }
 
 func TestVerifPkt(t *testing.T) {
